@@ -27,7 +27,8 @@ EXTENDS Ledger
 CONSTANTS RecvCases,    \* set of <<account, collateral bank, debt bank, receiver wallet>>
           Repays,       \* repay amounts (native units of the debt token)
           FixedSeizes,  \* withdrawals tried as they are (besides the computed boundary)
-          SeizeCap      \* upper end of the bisection (native units of the collateral token, < 2^31)
+          SeizeCap,     \* upper end of the bisection (native units of the collateral token, < 2^31)
+          OpStates      \* operational states the admin may put the collateral bank into (2 = reduce-only, 1 = operational)
 
 F2(r, s) == [r |-> r, s |-> s]
 RFlag(flags, b) == IF Bit(flags, b) THEN flags ELSE SortSeq(Append(flags, b), LAMBDA x, y : x < y)
@@ -141,9 +142,17 @@ BoundaryBracket(c, rep, f) ==
   ELSE IF top = "ok" THEN Bracket(c, rep, SeizeCap, f)     \* no bound below the cap
   ELSE LET m == BisectW(c, rep, f, 1, SeizeCap) IN \E x \in {m, m + 1} : Bracket(c, rep, x, f)
 
+\* the group admin winds the collateral bank down (reduce-only) or reopens it: its deposits keep counting for the bracket's
+\* maintenance and equity valuations (they only stop counting toward new borrowing)
+SetOpState(bn, state) ==
+  LET a == [op |-> "configure_bank", bank |-> bn, cfg |-> [op_state |-> state]]
+      post == [st EXCEPT !.banks[bn].cfg.op_state = state]
+  IN Do(a, "ok", post, [banks |-> (bn :> [cfg |-> [op_state |-> state]])])
+
 NextV ==
   /\ depth < MaxDepth
   /\ \/ \E d \in Ticks : Tick(d)
+     \/ \E c \in RecvCases, state \in OpStates : SetOpState(c[2], state)
      \/ \E p \in Prices : SetPrice(p[1], p[2], p[3])
      \/ \E c \in RecvCases, rep \in Repays, f \in BOOLEAN : BoundaryBracket(c, rep, f)
      \/ \E c \in RecvCases, rep \in Repays, x \in FixedSeizes : Bracket(c, rep, x, FALSE)
